@@ -103,6 +103,8 @@ func TestVerifE5Replay(t *testing.T) {
 	switch name {
 	case "f7_empty_stale_index", "f7_unrelated_removed", "f7_req_empty", "f7_touch_empty":
 		vfE5ReplayF7(t, name)
+	case "delete_races_getchannel":
+		vfE5ReplayDeleteGetChannel(t, name)
 	case "empty_races_delivery":
 		vfE5ReplayEmptyDelivery(t, name)
 	case "exit_races_timeout_scan":
@@ -644,4 +646,99 @@ func vfE5ReplayExitNotify(t *testing.T, name string) {
 		name, acked, exit, atomic.LoadInt32(arrived), strings.Contains(string(b), `"pn"`), terr == nil, chanOK, paused, depth,
 		terr != nil || !chanOK || !paused || depth < int64(acked))
 	n2.Exit()
+}
+
+// Channel delete racing a GetChannel/SUB of the same name: channel dr:c has a disk backlog with synced
+// diskqueue metadata; DeleteExistingChannel is parked at chan.exit.stage1 (exit flag set, consumers not
+// yet closed, nothing emptied); meanwhile GetChannel("c") + AddClient run (what a kicked consumer's
+// re-SUB does); the delete is released and completes.  Then: whatever channel of that name exists (or is
+// created now) must be empty, nothing of the old backlog may ever be delivered, no file may be left
+// that a later diskqueue would pick up.  On the code as it is the mid-delete GetChannel returns the
+// exiting channel and AddClient fails ("exiting"), so SUB fails / retries.
+func vfE5ReplayDeleteGetChannel(t *testing.T, name string) {
+	dir := t.TempDir()
+	opts := vfE5Opts(dir)
+	opts.MemQueueSize = 1
+	opts.SyncEvery = 1
+	n, err := New(opts)
+	if err != nil {
+		t.Fatal(err)
+	}
+	n.LoadMetadata()
+	go n.Main()
+	topic := n.GetTopic("dr")
+	old := topic.GetChannel("c")
+	for i := 0; i < 5; i++ {
+		topic.PutMessage(NewMessage(topic.GenerateID(), []byte{byte(i)}))
+	}
+	for d := time.Now().Add(5 * time.Second); old.Depth() < 5 && time.Now().Before(d); {
+		time.Sleep(time.Millisecond)
+	}
+	backlog := old.Depth()
+	g := vfE5NewGate("chan.exit.stage1")
+	del := make(chan string, 1)
+	go func() { del <- vfE5Try(20*time.Second, func() { topic.DeleteExistingChannel("c") }) }()
+	g.wait(t)
+	var mid *Channel
+	get := vfE5Try(5*time.Second, func() { mid = topic.GetChannel("c") })
+	// AddClient takes the channel's exitMutex: on an exiting channel it waits for the delete to finish
+	// and then fails; on a freshly created one it succeeds at once
+	subRes := make(chan string, 1)
+	if mid != nil {
+		go func() {
+			conn := &vfE5Conn{}
+			if err := mid.AddClient(901, newClientV2(901, conn, n)); err != nil {
+				subRes <- strings.ReplaceAll(err.Error(), " ", "_")
+			} else {
+				subRes <- "none"
+			}
+		}()
+	} else {
+		subRes <- "no_channel"
+	}
+	subErr := ""
+	select {
+	case subErr = <-subRes:
+	case <-time.After(300 * time.Millisecond):
+	}
+	close(g.release)
+	delRes := <-del
+	if subErr == "" {
+		select {
+		case subErr = <-subRes:
+		case <-time.After(5 * time.Second):
+			subErr = "blocked"
+		}
+	}
+	// after the delete: the channel a (re-)subscriber gets for that name
+	_, gerr := topic.GetExistingChannel("c")
+	existed := gerr == nil
+	cur := topic.GetChannel("c")
+	depth := cur.Depth()
+	delivered := 0
+	deadline := time.After(300 * time.Millisecond)
+recv:
+	for {
+		select {
+		case <-cur.memoryMsgChan:
+			delivered++
+		case <-cur.backend.ReadChan():
+			delivered++
+		case <-deadline:
+			break recv
+		}
+	}
+	var left []string
+	ents, _ := os.ReadDir(dir)
+	for _, e := range ents {
+		if strings.HasPrefix(e.Name(), "dr:c.") {
+			if fi, err := e.Info(); err == nil && fi.Size() > 0 && !strings.HasSuffix(e.Name(), ".bad") {
+				left = append(left, fmt.Sprintf("%s:%d", e.Name(), fi.Size()))
+			}
+		}
+	}
+	bad := depth != 0 || delivered != 0 || (mid != nil && mid != old) || subErr == "none"
+	fmt.Printf("E5REPLAY %s backlog=%d get=%s mid_delete_get_returned_exiting_channel=%v mid_delete_sub_err=%s delete=%s channel_listed_after_delete=%v depth=%d delivered_old_messages=%d nonempty_files=%s resurrected=%v\n",
+		name, backlog, get, mid == old, subErr, delRes, existed, depth, delivered, strings.Join(left, ","), bad)
+	n.Exit()
 }
